@@ -60,6 +60,7 @@ class World:
         add(8, W | P, 2)         # write-only: RPDO ok, TPDO wrong access
         self.big = gen.rand_bytes(rng, 8)
         cfg.add(S.domain(0x2301, 0, 8, self.big, flags=RW | P))      # an 8-byte object (mapped through the application callbacks)
+        cfg.add(S.Obj(0x2303, 0, RW | P, "usr", "U", 3, 0, 0, 0, 0x665544))    # a 3-byte object (UNSIGNED24 as user type), application's data as well
         self.pdos = []
         for n in range(npdo):
             good_r = [gen.maplink(0x2300, s, 8 * self.objs[(0x2300, s)][0]) for s in (0, 1, 2)]
@@ -120,6 +121,8 @@ def gen_write(rng, w, p):
             v = gen.maplink(rng.choice([0x2302, 0x2300, 0x1FFF]), rng.choice([0x20, 9, 0]), 8)
         elif rng.random() < 0.08:
             v = gen.maplink(0x2301, 0, rng.choice([15, 71, 1, 65, 12, 63]))         # bit lengths the byte-oriented mapping cannot honour
+        elif rng.random() < 0.06:
+            v = gen.maplink(0x2303, 0, rng.choice([32, 25, 12, 31, 40, 64]))        # more bits than the 3-byte object has, or no whole bytes
         return p.mapi(), rng.randint(1, 8), 4, v, kind
     return p.mapi(), 0, 1, rng.choice([0, 0, 1, 2, 3, 4, 5, 8, 9, 255]), kind
 
@@ -147,6 +150,8 @@ def expect(w, p, idx, sub, value, kind):
     if kind == "entry":
         if p.valid() or p.count != 0:
             return ("abort", None)
+        if (value >> 16, (value >> 8) & 0xFF) == (0x2303, 0):
+            return ("abort", None) if ((value & 0xFF) % 8 or (value & 0xFF) > 24) else ("open",)
         if (value >> 16, (value >> 8) & 0xFF) == (0x2301, 0):
             # 8-byte object: a length that is no whole number of bytes, or exceeds the object, cannot take effect as stored
             return ("abort", None) if ((value & 0xFF) % 8 or (value & 0xFF) > 64) else ("open",)
